@@ -166,10 +166,32 @@ def check_sources(F, R, prefix):
     return n
 
 
+def inner_index_advance(F, R, prefix):
+    """`next_inner_applicable_clause` counts its offset from the entry being executed, machine_st.iip. For a static
+    choice sequence that is the saved biip, but a dynamic one skips dead clauses first (find_living_dynamic moves iip
+    past them), so the saved index of the next alternative is iip + offset in BOTH writers, never biip += offset."""
+    n = 0
+    for w in ("indexed_try", "retry"):
+        fn = F.find_impl("Machine", None, w)
+        body = F.hir(fn)["body"]
+        wr = [x for x in walk(body) if x["k"] in ("Assign", "AssignOp") and field_chain(x["lhs"])[-2:] == ["prelude", "biip"]]
+        if not wr:
+            raise AnchorLost("%s: no write of OrFramePrelude.biip" % w)
+        for i, x in enumerate(wr):
+            from_iip = x["k"] == "Assign" and any(y["k"] == "Field" and y["name"] == "iip" and field_chain(y)[-2:] == ["machine_st", "iip"] for y in walk(x["rhs"]))
+            n += 1
+            R.ob("%s:orframe-writer:%s:next-inner-index-counts-from-the-entry-executed#%d" % (prefix, w, i), from_iip,
+                 "%s %s OrFramePrelude.biip (line %s): the offset of the next applicable entry is relative to machine_st.iip, which a dynamic choice sequence has moved past "
+                 "dead clauses; advancing the saved index by it re-runs the clause just executed (assertz a,b,c,d under one key; retract b; the call answers a,c,c,d)"
+                 % (w, "adds the offset to" if x["k"] == "AssignOp" else "does not compute from machine_st.iip the value of", x["ln"]), F.where(fn))
+    return n
+
+
 def check(F, R, prefix):
     fields = prelude_fields(F)
     R.notes.append("OrFramePrelude fields: %s" % fields)
     n = check_sources(F, R, prefix)
+    n += inner_index_advance(F, R, prefix)
     for w in WRITERS:
         fn = F.find_impl("Machine", None, w)
         h = F.hir(fn)
